@@ -13,6 +13,11 @@ def _prox_point(gamma, n, where, wrapper="cvxpy", solver=None, verbose=1):
     e = (x0 - xs) ** 2
     if where == "pep": problem.add_psd_matrix([[1, e], [e, 1]])
     elif where == "function": func.add_psd_matrix([[1, e], [e, 1]])
+    elif where in ("asym_upper", "asym_lower"):
+        # the initial condition leans on the symmetry an LMI enforces: one of the two mirrored entries is an auxiliary leaf `t`,
+        # the other one is `e`; a PSDMatrix is "constrained to be symmetric PSD", so t == e and e**2 <= 1
+        t = Expression()
+        problem.add_psd_matrix([[1, t], [e, 1]] if where == "asym_upper" else [[1, e], [t, 1]])
     elif where == "function_constraint": func.add_constraint(e <= 1)
     elif where == "twice": c = (e <= 1); problem.set_initial_condition(c); func.add_constraint(c)
     x = x0
@@ -26,6 +31,8 @@ def wc_proximal_point_lmi_on_function(gamma, n, **kw): return _prox_point(gamma,
 def wc_proximal_point_lmi_on_pep(gamma, n, **kw): return _prox_point(gamma, n, "pep", **kw)
 def wc_proximal_point_condition_on_function(gamma, n, **kw): return _prox_point(gamma, n, "function_constraint", **kw)
 def wc_proximal_point_condition_twice(gamma, n, **kw): return _prox_point(gamma, n, "twice", **kw)
+def wc_proximal_point_lmi_asymmetric_upper(gamma, n, **kw): return _prox_point(gamma, n, "asym_upper", **kw)
+def wc_proximal_point_lmi_asymmetric_lower(gamma, n, **kw): return _prox_point(gamma, n, "asym_lower", **kw)
 
 
 def wc_gradient_descent_epigraph(L, gamma, n, wrapper="cvxpy", solver=None, verbose=1):
